@@ -208,7 +208,7 @@ class Run:
         self.coverage = {}
         self.assumptions = []
         self.notes = []
-        self.workdir = os.path.join(BUILD, "run", pid)
+        self.workdir = os.path.join(BUILD, "run", "%s_%s" % (pid, tier))   # per tier: a quick and a thorough run of one property may overlap
         shutil.rmtree(self.workdir, ignore_errors=True)
         os.makedirs(self.workdir, exist_ok=True)
 
